@@ -626,6 +626,15 @@ def explore_scenario(args) -> Dict[str, Any]:
 
 
 # ---- TLC runs -------------------------------------------------------------------------------------------------------
+def jvm_options(tier: str) -> None:
+    """The TLC runs of this check are short (10^4-10^5 states): most of their CPU goes into C2 compilation and the 16
+    parallel-GC threads of a JVM that lives for half a minute.  JDK_JAVA_OPTIONS is read by the `java` launcher of the
+    child processes only (measured on the 1-item design run: 51 -> 21 CPU-seconds, 53 -> 26 s wall)."""
+    if "JDK_JAVA_OPTIONS" not in os.environ:
+        os.environ["JDK_JAVA_OPTIONS"] = ("-XX:TieredStopAtLevel=1 -XX:ParallelGCThreads=2 -XX:CICompilerCount=1" if tier == "quick"
+                                          else "-XX:ParallelGCThreads=4")
+
+
 def _cfg(n: int, family: str, variants=("own",), foreign=("F",), ownsets="NoOwn", **kw) -> str:
     consts = dict(Items=set(range(1, n + 1)), Foreign=set(foreign), Variants=set(variants), Family="<-" + family, OwnSets="<-" + ownsets)
     return tlc.cfg_text(consts, **kw).replace("= <-", "<- ")
